@@ -686,3 +686,45 @@ func alwaysExecutedWith(c, s ssa.Instruction) bool {
 	})
 	return ok
 }
+
+// isUnitCounter: phi is a loop counter that starts from 0 and is incremented by exactly 1 on some paths and left
+// unchanged on the others (possibly through merge phis).
+func isUnitCounter(phi *ssa.Phi) bool {
+	zero, inc, ok := false, false, true
+	seen := map[ssa.Value]bool{}
+	var leaf func(v ssa.Value, d int)
+	leaf = func(v ssa.Value, d int) {
+		if seen[v] || d > 6 {
+			return
+		}
+		seen[v] = true
+		if v == ssa.Value(phi) {
+			return
+		}
+		if k, isK := constInt(v); isK {
+			if k == 0 {
+				zero = true
+			} else {
+				ok = false
+			}
+			return
+		}
+		if bo, isB := v.(*ssa.BinOp); isB && bo.Op == token.ADD && bo.X == ssa.Value(phi) {
+			if one, isK := constInt(bo.Y); isK && one == 1 {
+				inc = true
+				return
+			}
+		}
+		if p2, isP := v.(*ssa.Phi); isP {
+			for _, e := range p2.Edges {
+				leaf(e, d+1)
+			}
+			return
+		}
+		ok = false
+	}
+	for _, e := range phi.Edges {
+		leaf(e, 0)
+	}
+	return zero && inc && ok
+}
